@@ -547,9 +547,11 @@ class Rule(RuleFactory):
             build_only=self.build_only,
             endpoint=self.endpoint,
             strict_slashes=self.strict_slashes,
+            merge_slashes=self.merge_slashes,
             redirect_to=self.redirect_to,
             alias=self.alias,
             host=self.host,
+            websocket=self.websocket,
         )
 
     def get_rules(self, map: Map) -> t.Iterator[Rule]:
